@@ -150,7 +150,7 @@ class Template:
         self.lines = [classify(s) for s in self.src]
         self.text = '\n'.join(self.src)
         self.gaps = sorted({l['marker'] for l in self.lines if l['kind'] == 'gap'})
-        self.consts = sorted(set(re.findall(r'\b(K\d+|BASE)\b', self.text)))
+        self.consts = sorted(set(re.findall(r'\b(K\d+|BASE|WIDE)\b', self.text)) - set(re.findall(r'^(K\d+) =', self.text, re.M)))
         self.files = {'/w/%s.bin' % g: ('gap', g) for g in self.gaps}
 
 
@@ -162,7 +162,7 @@ def declare_inputs(p, t, gap_bits, k_bits):
     if syms:
         gap_bits = min(gap_bits, 8)
     for c in t.consts:
-        consts[c] = p.int(c, lo=0, hi=(1 << 32) - 1) if c == 'BASE' else p.int(c, k_bits)
+        consts[c] = p.int(c, lo=0, hi=(1 << 32) - 1) if c == 'BASE' else (p.int(c, 48) if c == 'WIDE' else p.int(c, k_bits))
     for g in t.gaps:
         markers[g] = p.int(g, lo=0, hi=(1 << gap_bits))
     return consts, markers
